@@ -14,7 +14,9 @@ from concurrent.futures import ThreadPoolExecutor
 from common import (ToolError, log, workdir, seed, tlc_check, require_coverage, validate_parallel,
                     SPEC, ROOT, NPROC)
 
-HS = os.path.join(ROOT, "harness-src")
+# VERIF_VHS_DIR (testing aid): a copy of harness-src whose renoir dependency points to a scratch
+# copy of /repo, so that hand-made mutants can be tried without touching /repo itself
+HS = os.environ.get("VERIF_VHS_DIR") or os.path.join(ROOT, "harness-src")
 VHS = os.path.join(HS, "target", "debug", "vhs")
 
 MACRO_TYPES = ["u8", "u16", "u32", "usize", "i8", "i16", "i32", "i64", "isize"]
@@ -63,6 +65,8 @@ def models(V, wd, tier):
     main = [("FileSplit", f"FileSplit_{suf}"), ("FileSplit", f"FileSplit_crlf_{suf}"),
             ("CsvSplit", f"CsvSplit_{suf}"), ("CsvSplit", f"CsvSplit_crlf_{suf}")] + \
            [("RangeSplit", f"RangeSplit_{x}") for x in ("narrow", "unarrow", "wide", "usize", "u64")]
+    if not q:
+        main += [("RangeSplit", f"RangeSplit_{x}_thorough") for x in ("narrow", "unarrow", "wide", "usize", "u64")]
     finding = [("RangeSplit", f"RangeSplit_finding_{x}") for x in
                ("reversed", "reversed_u64", "nearmax", "usize")]
     gen = [("FileSplit", f"FileSplit_gen_{suf}"), ("FileSplit", f"FileSplit_gen_crlf_{suf}"),
@@ -94,6 +98,37 @@ def models(V, wd, tier):
         if not res[c]["ok"]:
             raise ToolError(f"behaviour generation {c} failed")
     return {c: res[c]["replays"] for _, c in gen}, suf
+
+
+def apalache(V, wd, budget=420):
+    """Thorough tier: Apalache (symbolic integers) checks the partition property of RangeSplit for
+    the REAL limits of the 64-bit and 32-bit types, all bounds with at most 2^62 elements, 1..6 peers
+    (spec/apa/RangeSplitApa.tla, --length=0), and must find the reversed-range counterexample when the
+    carve-out is lifted.  Skipped with a note when it does not finish within the budget."""
+    spec = os.path.join(SPEC, "apa", "RangeSplitApa.tla")
+    runs = [(c, "Init", "NoError") for c in ("CInitI64", "CInitU64", "CInitUsize", "CInitI32", "CInitU32")]
+    runs.append(("CInitI64", "InitAll", "Error"))
+
+    def one(r):
+        cinit, init, want = r
+        out = os.path.join(wd, f"apa_{cinit}_{init}")
+        cmd = ["timeout", str(budget), "apalache-mc", "check", "--length=0", f"--cinit={cinit}",
+               f"--init={init}", "--inv=C15_Range", f"--out-dir={out}", spec]
+        t0 = time.time()
+        p = subprocess.run(cmd, stdout=subprocess.PIPE, stderr=subprocess.STDOUT, text=True, cwd=wd)
+        m = [ln for ln in p.stdout.splitlines() if "The outcome is:" in ln]
+        got = m[0].split("The outcome is:")[1].split()[0] if m else ("Timeout" if p.returncode == 124 else "Failed")
+        return {"cinit": cinit, "init": init, "outcome": got, "expected": want, "wall_s": round(time.time() - t0, 1)}
+
+    with ThreadPoolExecutor(max_workers=len(runs)) as ex:
+        res = list(ex.map(one, runs))
+    V.coverage["apalache"] = res
+    for r in res:
+        if r["outcome"] in ("Timeout", "Failed"):
+            V.assumptions.append(f"Apalache run {r['cinit']}/{r['init']} did not complete ({r['outcome']}): skipped")
+        elif r["outcome"] != r["expected"]:
+            raise ToolError(f"Apalache {r['cinit']}/{r['init']}: outcome {r['outcome']}, expected {r['expected']} "
+                            "(a model-level result: resolve in spec/apa/RangeSplitApa.tla)")
 
 
 # ------------------------------------------------------------------------------------------------
@@ -233,10 +268,15 @@ def C15(V, tier):
     bt = build_vhs()
     log(f"[C15] harness-src built in {bt:.1f}s")
     V.coverage["build_vhs_s"] = round(bt, 1)
+    V.coverage["harness_dir"] = HS
 
     t0 = time.time()
     gens, suf = models(V, wd, tier)
     log(f"[C15] model checks + generation {time.time() - t0:.1f}s")
+    if tier != "quick":
+        t0 = time.time()
+        apalache(V, wd)
+        log(f"[C15] apalache {time.time() - t0:.1f}s {[(r['cinit'], r['init'], r['outcome']) for r in V.coverage['apalache']]}")
 
     tcases, texp = text_cases(gens, suf)
     rcases, rexp, n_direct = range_cases(gens, suf, tier, rng)
@@ -293,13 +333,16 @@ def C15(V, tier):
     V.coverage["integer_types"] = ALL_TYPES
     # the finite spaces were enumerated completely iff TLC produced exactly the closed-form number
     # of files / bound pairs and every one of them was run and judged
-    L = {"quick": (10, 8), "thorough": (13, 11)}[suf]
+    L = {"quick": (10, 8), "thorough": (13, 11)}[suf]      # file source: max bytes (LF only, with CRLF)
+    LC = {"quick": (9, 7), "thorough": (12, 10)}[suf]      # csv source (x 2 header flags)
     B = {"quick": 8, "thorough": 12}[suf]
     want = {f"FileSplit_gen_{suf}": n_files(L[0], False), f"FileSplit_gen_crlf_{suf}": n_files(L[1], True),
-            f"CsvSplit_gen_{suf}": 2 * n_files(L[0], False), f"CsvSplit_gen_crlf_{suf}": 2 * n_files(L[1], True),
+            f"CsvSplit_gen_{suf}": 2 * n_files(LC[0], False), f"CsvSplit_gen_crlf_{suf}": 2 * n_files(LC[1], True),
             f"RangeSplit_gen_B_{suf}": (2 * B + 1) ** 2, f"RangeSplit_gen_A_{suf}": (B + 1) ** 2}
     got = {k: len(gens[k]) for k in want}
     V.coverage["enumerated"] = got
+    V.coverage["bounds"] = {"file_max_bytes": L, "csv_max_bytes": LC, "replicas": "1..6",
+                            "range_bounds": f"-{B}..{B}", "peers": "1..6 (+7,16,64 for the huge-range table)"}
     V.coverage["exhaustive"] = got == want and consumed == len(recs)
     if got != want:
         raise ToolError(f"incomplete enumeration: {got} != {want}")
